@@ -127,14 +127,35 @@ func (i *interpreter) ensureInit(pkg *ssa.Package) {
 			}
 		}()
 		saved := i.path.instrs
+		savedDepth, savedStack := i.panicDepth, i.panicStack
+		defer func() { i.panicDepth, i.panicStack = savedDepth, savedStack }()
 		i.initPass = initFn
 		callSSA(i, nil, token.NoPos, initFn, nil, nil)
 		i.path.instrs = saved
 	}()
 }
 
+// globalModels gives values to a few variables of packages whose initialisers
+// are not run.
+var globalModels = map[string]func(i *interpreter) (value, bool){
+	"net.ErrClosed": func(i *interpreter) (value, bool) {
+		poll := i.prog.ImportedPackage("internal/poll")
+		if poll == nil {
+			return nil, false
+		}
+		t := poll.Type("errNetClosing")
+		if t == nil {
+			return nil, false
+		}
+		return iface{t: t.Type(), v: zero(t.Type())}, true
+	},
+}
+
 func (i *interpreter) global(g *ssa.Global) *value {
 	if r, ok := i.globals[g]; ok {
+		if i.uninit[g.Pkg] && g.Name() != "init$guard" && !i.modelled[g] && !i.inInit() {
+			panic(engineAbort{"unsupported: read of global " + g.String() + " of a package whose init is not modelled" + i.stackString()})
+		}
 		return r
 	}
 	// allocate all globals of the package, then initialise it
@@ -145,6 +166,26 @@ func (i *interpreter) global(g *ssa.Global) *value {
 				cell := zero(mustDeref(v.Type()))
 				i.globals[v] = &cell
 			}
+		}
+	}
+	if !initAllowed(pkg.Pkg.Path()) {
+		if i.uninit == nil {
+			i.uninit = map[*ssa.Package]bool{}
+			i.modelled = map[*ssa.Global]bool{}
+		}
+		i.uninit[pkg] = true
+		for _, m := range pkg.Members {
+			if v, ok := m.(*ssa.Global); ok {
+				if f := globalModels[pkg.Pkg.Path()+"."+v.Name()]; f != nil {
+					if val, ok := f(i); ok {
+						*i.globals[v] = val
+						i.modelled[v] = true
+					}
+				}
+			}
+		}
+		if i.modelled[g] {
+			return i.globals[g]
 		}
 	}
 	if g.Name() != "init$guard" {
@@ -297,6 +338,9 @@ func (i *interpreter) stackString() string {
 // harnesses). A panic in the goroutine is a process crash in Go; report it.
 func (i *interpreter) spawn(fr *frame, instr *ssa.Go, fn value, args []value) {
 	switch i.h.goMode {
+	case "sched":
+		i.spawnSched(instr.Pos(), fn, args, nil)
+		return
 	case "skip":
 		return
 	case "defer":
